@@ -80,6 +80,10 @@ let () = serve (fun fn req ->
         | Some ((t, r), sp) -> JObj [("type", of_option (fun x -> JStr (jt x)) t); ("row_type", of_n r); ("spendable", of_bool sp)]
         | None -> JNull)
         (tx_view dec (SL.map jbytes (jlist (jfield req "scripts"))))
+  | "internal" ->
+      let dec d = (match oracle1 "purchase_decodes" d with [] -> false | _ -> true) in
+      of_bool (internal_at dec (SL.map jbytes (jlist (jfield req "scripts"))) (jnat (jfield req "i"))
+                 (jbool (jfield req "my_input")) (jbool (jfield req "my_output")))
   | "generate" ->
       let t = tname_of_string (jstr (jfield req "template")) in
       let vs = match jfield req "values" with
